@@ -18,27 +18,35 @@ SCALE = 1024
 COLS = ["score", "geom1", "geom2", "subtomo_id", "tomo_id", "object_id", "subtomo_mean", "x", "y", "z",
         "shift_x", "shift_y", "shift_z", "geom3", "geom4", "geom5", "phi", "psi", "theta", "class"]
 I_ID, I_TOMO, I_X, I_SX = 3, 4, 7, 10
-RULE = ("one case = one call of one filter on a particle list of 1..60 rows (thorough: up to 400) over 1..4 tomograms; ~15 % of the cases are a "
+RULE = ("one case = one call of one filter on a particle list of 1..60 rows (thorough: up to 400) over 1..4 tomograms (numbers from a pool that contains 0); ~15 % of the cases are a "
         "HISTORY of 2..3 calls in one process that re-use the same caller-owned arguments (the same dims array/table/file, trim-box arrays, points table, "
-        "mask arrays, tomogram list), some legitimately edited in place / rewritten between the calls; every call is judged on its own and the "
+        "mask arrays or mask FILES, tomogram list), some legitimately edited in place / rewritten between the calls; every call is judged on its own and the "
         "caller-owned arguments are compared before/after each call. ~30 % of the calls omit the keywords whose value is the documented default "
-        "(boundary_type='center', inplace=True). subtomo ids: unique, restarting in every tomogram (same id in several tomograms), or repeated at random "
-        "(mask: repeated inside a tomogram only on rows that share their voxel, see ASSUMPTIONS). "
-        "oob: per-tomogram dimensions (different per tomogram, unsorted, extra/duplicate/missing rows) handed over as ndarray / DataFrame / text file / "
-        "flat list / 1-D array, boundary 'center'/'whole' with box 1..64 incl. every residue mod 4 "
+        "(boundary_type='center', inplace=True). The particle table itself: float64 (88 %) or an all-integer int64 frame (12 %, every field a whole number); "
+        "row labels 0..n-1 (80 %) or with gaps / shuffled / duplicated labels (20 %). subtomo ids: unique, restarting in every tomogram (same id in several tomograms), "
+        "or repeated at random (mask: repeated inside a tomogram only on rows that share their voxel - verbatim copies and re-picked rows with other shifts/angles, see ASSUMPTIONS). "
+        "oob: per-tomogram dimensions (different per tomogram, unsorted, extra/duplicate/missing rows; 8..128 voxels, realistic extents up to 4096 and, for large boxes, "
+        "volumes around twice the half box; 4 % with a half-voxel extent) handed over as float ndarray / int ndarray / labelled DataFrame / UNLABELLED DataFrame / text file / "
+        "flat list / 1-D array, boundary 'center'/'whole' with box 1..64 incl. every residue mod 4 and realistic boxes 65..260 (96, 97, 128, 129, 200, 201, 256 ...) "
         "(plus refused calls: unknown type, box missing/0), every axis of every particle drawn from {deep inside, exactly on the lower face, "
         "just below it (1, 1/2, 1/1024), negative, 0, just below / exactly on / just beyond the upper face, far beyond}, non-zero shifts; "
-        "trim: integer trim boxes (list or ndarray, int or float dtype), x,y,z on / next to both faces, shifts that must be ignored; "
-        "points: 0..8 reference points in own/foreign tomograms, radii >= 0 incl. 0 and exact ties (3-4-5 triples on integer and 1/4 grids); "
-        "mask: per-tomogram masks of different small shapes (or one shared mask), binary or with values around the binarisation threshold 0.5, "
+        "trim: integer trim boxes (list / tuple / ndarray, int or float dtype), x,y,z on / next to both faces, shifts that must be ignored; "
+        "points: 0..8 (sometimes 9..40) reference points in own/foreign tomograms, radii >= 0 incl. 0 and exact ties (3-4-5 triples on integer and 1/4 grids); "
+        "mask: per-tomogram masks of different small shapes (30 %: three DISTINCT axis lengths; some with an axis up to 24) or one shared mask, handed over as ndarrays (80 %) "
+        "or as MRC FILE PATHS written with mrcfile alone (20 %), binary or with values around the binarisation threshold 0.5; the tomogram list handed over as "
+        "list / float or int ndarray / tuple / single int / text FILE with one number per line in the order of the list (mostly UNSORTED); "
         "listed/unlisted/foreign tomograms, positions with fractional parts in (-1,0), on 0, on shape-1/4, on shape, beyond. "
         "CONVENTION (theorem voxel_truncation_convention): the voxel of a particle is its complete position TRUNCATED toward zero (astype(int)), so "
         "positions in (-1,0) count as voxel 0 = inside the mask volume. "
+        "The reference-point filter returns its survivors grouped by tomogram: the statement fixes them up to a permutation (cleanPoints_perm_stmt); compared are "
+        "the survivors TOMOGRAM BY TOMOGRAM, in order (cleanPoints_tomogram_order_stmt) - the order of the groups is not demanded. "
         "non-trivial = the expected result both keeps and removes a particle and the case contains a particle on or next to a face "
         "(oob/trim/mask) resp. a tie or a foreign-tomogram point (points); distinct = distinct (op, inputs) content")
 ASSUMPTIONS = [
-    "numpy float64 +,-,*,<,<= on dyadic inputs of magnitude < 2^10 with 10 fractional bits are exact = Rat arithmetic of the model (all outputs compared exactly)",
-    "scipy.spatial.KDTree.query_ball_point(p, r) = brute-force closed ball {q : |q-p|^2 <= r^2} (probed every run against brute force incl. exact ties)",
+    "numpy float64 +,-,*,<,<= on dyadic inputs of magnitude < 2^13 with 10 fractional bits are exact = Rat arithmetic of the model (all outputs compared exactly; "
+    "squares of differences stay below 2^47)",
+    "scipy.spatial.KDTree.query_ball_point(p, r) = brute-force closed ball {q : |q-p|^2 <= r^2} (probed every run against brute force incl. exact ties); for r < 0 scipy "
+    "uses |r| like the model's r*r (inBall_neg; probed) - a negative radius is outside the quantifier ('radii') and never generated",
     "numpy astype(int) of a float = truncation toward zero (probed)",
     "pandas: boolean-mask selection and iloc keep row order; Series.unique() lists values in order of first appearance; concat keeps order",
     "well-formedness of the mask filter (theorem cleanMask_spec_iff: exactly this is needed, cleanMask_needs_unique_ids_within_tomogram: it cannot be dropped): "
@@ -46,6 +54,19 @@ ASSUMPTIONS = [
     "ids may repeat across tomograms",
     "the dimensions table has the N x 4 form (tomo_id x y z) of the statement's 'dimensions of the particle's own tomogram'; the 1 x 3 single-tomogram form "
     "accepted by ioutils.dimensions_load makes remove_out_of_bounds_particles raise KeyError('tomo_id') and is outside the quantifier (reported)",
+    "'the box of the given size around it lies inside' is read with the CODE'S convention: half width ceil(box/2) voxels on both sides (for an odd box one half voxel more "
+    "than box/2), lower faces closed (0 <= c - b), upper faces open (c + b < dim). The prose of the statement does not fix the parity/face convention; oob_spec / "
+    "boundary_spec state it, and a change of it in the source breaks oob_upper_documented",
+    "the particle list has at least one row: the quantifier ranges over lists x 1..4 tomograms, and a list without rows has no tomogram. (Observed, not judged: on an EMPTY "
+    "list clean_by_distance_to_points raises ValueError because Motl(pd.DataFrame()) refuses a frame without columns; the other three filters return the empty list.)",
+    "ioutils.dimensions_load names the columns of an UNLABELLED N x 4 DataFrame in place (tests/test_ioutils.py documents this as today's behaviour and asks whether it is "
+    "intended); this relabelling of the caller's frame is tolerated and counted in the evidence ('dims frame relabelled in place'); any other change of a caller-owned "
+    "argument (content, dtype, index, other labels) is a spec finding",
+    "tomo_masks is a list of 3-D masks (arrays or paths) or ONE 3-D mask (array or path), as the docstring says; a tuple of masks (refused: ValueError from cryomap.read) and "
+    "a stacked 4-D array (silently treated as one mask whose first three axes are used: every listed particle inside is removed) are outside the documented forms (reported)",
+    "MRC files: data[z, y, x] (x fastest) is voxel (x, y, z) - the harness writes mask files with mrcfile alone, never with cryomap.write",
+    "filler fields (scores, angles, classes) are dyadic like the positions; decimal values such as 12.37 are not generated (the filters never compute with them; "
+    "'survivor unaltered' compares all 20 fields of every survivor exactly)",
 ]
 TRUSTED = ["harness/props/c09.py Python oracle used only to cross-check the Lean verdict and to classify finding C09-K1"]
 
@@ -83,28 +104,109 @@ def _params(fn):
     return names
 
 
+LOG_CALLS = {"print", "warnings.warn", "warn", "logging.info", "logging.warning", "logging.debug", "logger.info", "logger.warning", "logger.debug"}
+
+
+def _is_text(node):
+    """a message: string constant, f-string, or a concatenation / %-format / .format() of such"""
+    if isinstance(node, ast.Constant) and isinstance(node.value, str):
+        return True
+    if isinstance(node, ast.JoinedStr):
+        return True
+    if isinstance(node, ast.BinOp) and isinstance(node.op, (ast.Add, ast.Mod)):
+        return _is_text(node.left)
+    if isinstance(node, ast.Call) and isinstance(node.func, ast.Attribute) and node.func.attr == "format":
+        return _is_text(node.func.value)
+    return False
+
+
+class _Normalise(ast.NodeTransformer):
+    """H1: nothing of the dump depends on type annotations or on the wording of exception / log messages.
+    `x: T = v` -> `x = v`; a bare `x: T` disappears; annotations of parameters and of the return value are dropped;
+    `raise E(<message ...>)` -> `raise E(MSG)` (the exception TYPE stays); `print(...)` / `warnings.warn(...)` / logger calls -> `LOG()`;
+    `(X).all(axis=k)` / `(X).any(axis=k)` -> `np.all(X, axis=k)` / `np.any(X, axis=k)` (the two spellings of the same reduction)."""
+
+    def visit_arg(self, node):
+        node.annotation = None
+        return node
+
+    def visit_FunctionDef(self, node):
+        node.returns = None
+        self.generic_visit(node)
+        return node
+
+    def visit_AnnAssign(self, node):
+        self.generic_visit(node)
+        if node.value is None:
+            return None
+        return ast.copy_location(ast.Assign(targets=[node.target], value=node.value), node)
+
+    def visit_Raise(self, node):
+        self.generic_visit(node)
+        exc = node.exc
+        if isinstance(exc, ast.Call) and exc.args and any(_is_text(a) for a in exc.args):
+            exc.args = [ast.Name(id="MSG", ctx=ast.Load())]
+            exc.keywords = []
+        return node
+
+    def visit_Expr(self, node):
+        self.generic_visit(node)
+        v = node.value
+        if isinstance(v, ast.Call) and ast.unparse(v.func).replace(" ", "") in LOG_CALLS:
+            return ast.copy_location(ast.Expr(value=ast.Call(func=ast.Name(id="LOG", ctx=ast.Load()), args=[], keywords=[])), node)
+        return node
+
+    def visit_Call(self, node):
+        self.generic_visit(node)
+        f = node.func
+        if isinstance(f, ast.Attribute) and f.attr in ("all", "any") and not node.args and not (isinstance(f.value, ast.Name) and f.value.id in ("np", "numpy")) \
+                and all(k.arg == "axis" for k in node.keywords):
+            return ast.copy_location(ast.Call(func=ast.Attribute(value=ast.Name(id="np", ctx=ast.Load()), attr=f.attr, ctx=ast.Load()),
+                                              args=[f.value], keywords=node.keywords), node)
+        return node
+
+
 def _canon(fn):
-    """a copy of the function without its docstring in which every LOCAL variable (any name bound inside the body:
-    assignment, loop, comprehension, with/except target; parameters keep their names - they are API) is renamed to
-    v1, v2, ... in the order of first binding: two sources that differ only in the spelling of locals give the same tree"""
+    """a copy of the function without its docstring, normalised by `_Normalise`, in which every LOCAL variable (any name bound
+    inside the body: assignment, loop, comprehension, with/except target; parameters keep their names - they are API) is renamed
+    to v1, v2, ... in the order of its first BINDING occurrence (source position of the binding), so two sources that differ only
+    in the spelling of locals give the same tree. A local that is never read - `_` or any other spelling of a discard - prints as
+    `_` and takes no number: every discard is separate from every other one and renaming a used name to/from a discard elsewhere
+    cannot shift the numbering (H2). The reverse map is kept in `fn._orig` so that messages can quote the ORIGINAL identifiers."""
     fn = copy.deepcopy(fn)
     if fn.body and isinstance(fn.body[0], ast.Expr) and isinstance(fn.body[0].value, ast.Constant) and isinstance(fn.body[0].value.value, str):
         fn.body = fn.body[1:] or [ast.Pass()]
+    fn = _Normalise().visit(fn)
+    ast.fix_missing_locations(fn)
     keep = set(_params(fn))
     for n in ast.walk(fn):
         if isinstance(n, (ast.Global, ast.Nonlocal)):
             keep.update(n.names)
+    loaded = {n.id for n in ast.walk(fn) if isinstance(n, ast.Name) and isinstance(n.ctx, (ast.Load, ast.Del))}
+    for n in ast.walk(fn):
+        if isinstance(n, ast.AugAssign) and isinstance(n.target, ast.Name):
+            loaded.add(n.target.id)
     binds = sorted((n.lineno, n.col_offset, n.id) for n in ast.walk(fn)
                    if isinstance(n, ast.Name) and isinstance(n.ctx, ast.Store) and n.id not in keep)
     order = []
     for _, _, name in binds:
-        if name not in order:
+        if name not in order and name in loaded and name != "_":
             order.append(name)
     ren = {name: f"v{k + 1}" for k, name in enumerate(order)}
+    for _, _, name in binds:
+        if name not in ren:
+            ren[name] = "_"
     for n in ast.walk(fn):
         if isinstance(n, ast.Name) and n.id in ren:
             n.id = ren[n.id]
+    fn._orig = {v: k for k, v in ren.items() if v != "_"}
     return fn
+
+
+def _orig_text(fn, text):
+    """text written in canonical names -> the same with the identifiers the source uses today"""
+    m = getattr(fn, "_orig", {})
+    return re.sub(r"\bv\d+\b", lambda g: m.get(g.group(0), g.group(0)), text)
 
 
 def _hole(name, *args):
@@ -159,7 +261,51 @@ DOC_DEFAULTS = {
     "mask": [["inplace", "True"], ["output_file", "None"]],
     "binarize": [["threshold", "0.5"]],
     "dimsload": [["tomo_idx", "None"]],
+    "tltload": [["sort_angles", "True"]],
+    "read": [["transpose", "True"], ["data_type", "None"]],
 }
+# helper functions the four filters go through: looked up with src.find so that the framework's binding obligations (bound once,
+# no re-binding, documented decorators) cover them; their behaviour is exercised by the correspondence run, not dumped
+HELPERS = [(REL, "Motl.__init__"), (REL, "Motl.check_df_correct_format"), (REL, "Motl.load"), (REL, "Motl.get_motl_subset"),
+           (REL, "Motl.get_unique_values"), (REL, "Motl.create_empty_motl_df"),
+           ("cryocat/ioutils.py", "one_value_per_line_read"), ("cryocat/ioutils.py", "tlt_load"), ("cryocat/cryomap.py", "read")]
+SKELETON_THEOREMS = {"oob": "oobSkeleton", "trim": "trimSkeleton", "mask": "maskSkeleton", "points": "pointsSkeleton", "coords": "coordsSkeleton",
+                     "dimsload": "dimsLoadSkeleton", "binarize": "binarizeSkeleton"}
+
+
+def _documented_skeletons():
+    """the string lists written by hand in Props/C09.lean (`Gen.C09.<x>Skeleton = [ ... ] := rfl`), for DIAGNOSTICS only: the
+    obligation itself is the `rfl` the Lean kernel checks; this merely lets the report show WHICH line differs"""
+    path = os.path.join(os.path.dirname(os.path.dirname(os.path.dirname(os.path.abspath(__file__)))), "lean", "CryoCat", "Props", "C09.lean")
+    try:
+        text = open(path).read()
+    except OSError:
+        return {}
+    out = {}
+    for key, name in SKELETON_THEOREMS.items():
+        m = re.search(r"Gen\.C09\." + name + r" = \[(.*?)\] := rfl", text, re.S)
+        if not m:
+            continue
+        items = re.findall(r'"((?:[^"\\]|\\.)*)"', m.group(1))
+        out[key] = [re.sub(r"\\(.)", r"\1", it) for it in items]
+    return out
+
+
+def _doc_compare(src, sk):
+    """first-hand diagnostic of a changed body: one (failing) anchor per skeleton that differs from the documented one, quoting the
+    first differing line of today's source next to the documented line"""
+    doc = _documented_skeletons()
+    for key, lines in sk.items():
+        want = doc.get(key)
+        if want is None or want == lines:
+            continue
+        k = next((i for i, (a, b) in enumerate(zip(lines, want)) if a != b), min(len(lines), len(want)))
+        now = lines[k].strip() if k < len(lines) else "<end of function>"
+        was = want[k].strip() if k < len(want) else "<end of function>"
+        src.anchors.append(dict(name=f"skeleton:{key}: body equals the documented one ({SKELETON_THEOREMS[key]} in Props/C09.lean)", ok=False, value=None,
+                                detail=f"first difference at statement line {k}: today `{now}` — documented `{was}` "
+                                       f"({len(lines)} lines today, {len(want)} documented; locals are shown as v1, v2, ... in order of first binding)"))
+
 
 
 def translate(src):
@@ -176,6 +322,8 @@ def translate(src):
 
     def oob_parse():
         fn = canon(REL, "Motl.remove_out_of_bounds_particles")
+        dflt["oob"] = _defaults(fn)  # read first: a failure further down must not make the signature look unread
+        nrm = lambda n: _orig_text(fn, core.norm_expr(n))  # messages quote the identifiers of today's source
         repl = {}
         loops = [n for n in ast.walk(fn) if isinstance(n, ast.For)]
         ifs = [n for lp in loops for n in ast.walk(lp) if isinstance(n, ast.If) and isinstance(n.test, ast.BoolOp)
@@ -245,7 +393,6 @@ def translate(src):
         oob["half"] = list(table[nrm(half[0].value)])
         repl[id(half[0].value)] = _hole("HALF_BOX", _hname("box_size"))
         sk["oob"] = _skeleton(fn, repl)
-        dflt["oob"] = _defaults(fn)
         return f"lower {lower}, upper {oob['upper']}, half box {oob['half']}"
 
     A("oob:operators (lower-face form, upper-face operator, half box) + body skeleton", oob_parse)
@@ -255,6 +402,7 @@ def translate(src):
 
     def trim_parse():
         fn = canon(REL, "Motl.adapt_to_trimming")
+        nrm = lambda n: _orig_text(fn, core.norm_expr(n))
         repl = {}
         offs = [n for n in ast.walk(fn) if isinstance(n, ast.BinOp) and isinstance(n.op, ast.Sub) and nrm(n.left) == "np.asarray(trim_coord_start)"]
         if len(offs) != 1:
@@ -297,22 +445,38 @@ def translate(src):
 
     def mask_parse():
         fn = canon(REL, "Motl.clean_by_tomo_mask")
+        dflt["mask"] = _defaults(fn)  # read first (see oob_parse)
+        o = lambda t: _orig_text(fn, t)
         repl = {}
+        # ---- how the tomogram list is loaded: ioutils.tlt_load(tomo_list[, sort_angles=<bool>])
+        loads = [n for n in ast.walk(fn) if isinstance(n, ast.Call) and nrm(n.func) in ("ioutils.tlt_load", "tlt_load")]
+        if len(loads) != 1 or len(loads[0].args) != 1 or nrm(loads[0].args[0]) != "tomo_list" or any(k.arg != "sort_angles" for k in loads[0].keywords):
+            raise core.AnchorMissing("clean_by_tomo_mask: no single `ioutils.tlt_load(tomo_list[, sort_angles=...])`, found " + str([o(ast.unparse(n)) for n in loads]))
+        if loads[0].keywords:
+            v = loads[0].keywords[0].value
+            if not (isinstance(v, ast.Constant) and isinstance(v.value, bool)):
+                raise core.AnchorMissing("sort_angles is not a literal: " + o(ast.unparse(v)))
+            mask["sort_kw"] = v.value
+        else:
+            mask["sort_kw"] = None  # tlt_load's own default applies
+        repl[id(loads[0])] = _hole("LOAD_TOMO_LIST", loads[0].args[0])
+        # np.all(X, axis=1) and (X).all(axis=1) are the same reduction (_Normalise gives both the first form)
         lows = [n for n in ast.walk(fn) if isinstance(n, ast.Call) and nrm(n.func) == "np.all" and n.args and isinstance(n.args[0], ast.Compare)
                 and isinstance(n.args[0].left, ast.Name) and any(k.arg == "axis" and _num(k.value) == 1 for k in n.keywords)]
         if len(lows) != 1 or _num(lows[0].args[0].comparators[0]) != 0:
-            raise core.AnchorMissing("no single `np.all(coords <op> 0, axis=1)`")
+            raise core.AnchorMissing("no single all-axes lower test `np.all(coords <op> 0, axis=1)` / `(coords <op> 0).all(axis=1)`; candidates: "
+                                     + str([o(ast.unparse(n)) for n in ast.walk(fn) if isinstance(n, ast.Call) and nrm(n.func).endswith("all")]))
         cname = lows[0].args[0].left.id
         mask["low"] = _cmp(lows[0].args[0])
         repl[id(lows[0].args[0])] = _hole("CMP_IDX_LOW", lows[0].args[0].left, lows[0].args[0].comparators[0])
         cs = sorted((n for n in ast.walk(fn) if isinstance(n, ast.Compare) and re.fullmatch(cname + r"\[:,\d\]", nrm(n.left))),
                     key=lambda n: (n.lineno, n.col_offset))
         if len(cs) != 3:
-            raise core.AnchorMissing(f"expected 3 upper comparisons of {cname}[:, i], found {len(cs)}")
+            raise core.AnchorMissing(f"expected 3 upper comparisons of {o(cname)}[:, i], found {len(cs)}")
         for i, c in enumerate(cs):
             m = re.fullmatch(VN + r"\.shape\[(\d)\]", nrm(c.comparators[0]))
             if nrm(c.left) != f"{cname}[:,{i}]" or not m or int(m.group(2)) != i:
-                raise core.AnchorMissing("upper comparison `" + nrm(c) + "`")
+                raise core.AnchorMissing("upper comparison `" + o(ast.unparse(c)) + "`")
         mask["high"] = _same([_cmp(c) for c in cs], "mask high")
         for c in cs:
             repl[id(c)] = _hole("CMP_IDX_HIGH", c.left, c.comparators[0])
@@ -341,17 +505,18 @@ def translate(src):
                 mask["stmt"] = True
                 repl[id(st)] = ast.Expr(value=_hole("DROP_ROWS", _hname(c), _hname(tname), _hname(ids)))
         if scope is None:
-            raise core.AnchorMissing("the statement that drops the rows of the collected subtomo ids has an unknown form")
+            raise core.AnchorMissing("the statement that drops the rows of the collected subtomo ids has an unknown form; loop body: "
+                                     + "; ".join(o(ast.unparse(st))[:90] for st in loops[0].body if not nrm(st).startswith("LOG(")))
         mask["scope"] = scope
         lines = _skeleton(fn, repl)
         sk["mask"] = lines
-        dflt["mask"] = _defaults(fn)
+        mask["_fn"] = fn
         txt = "\n".join(l.strip().replace(" ", "") for l in lines)
         # the ids are taken from the id array filtered by the SAME bounds mask as the coordinates
         m = re.search(r"^" + VN + r"=" + VN + r"\[" + VN + r"\]$\n^" + VN + r"=" + VN + r"\.df\['subtomo_id'\]\.values\[\3\]$", txt, re.M)
         m2 = re.search(r"^" + VN + r"=" + VN + r"\[" + VN + r"\]$", txt[m.end():], re.M) if m else None
         mask["ids_through"] = bool(m and m.group(1) == m.group(2) and m2 and m2.group(2) == m.group(4))
-        return f"low {mask['low']}, high {mask['high']}, voxel {mask['zero']}, scope {scope}, ids through the bounds filter {mask['ids_through']}"
+        return f"low {mask['low']}, high {mask['high']}, voxel {mask['zero']}, scope {scope}, ids through the bounds filter {mask['ids_through']}, sort_angles {mask['sort_kw']}"
 
     A("mask:operators (index bounds, voxel test, which rows are dropped) + body skeleton", mask_parse)
 
@@ -367,6 +532,58 @@ def translate(src):
     A("points:body skeleton (KDTree of the particles, closed-ball query per reference point, per tomogram)", whole("points", REL, "Motl.clean_by_distance_to_points"))
     A("get_coordinates:body skeleton", whole("coords", REL, "Motl.get_coordinates"))
     A("dimensions_load:body skeleton (all input forms, N x 4 column naming)", whole("dimsload", "cryocat/ioutils.py", "dimensions_load"))
+
+    tlt = {}
+
+    def tlt_parse():
+        """what C09 needs of `tlt_load`: with `sort_angles` false NOTHING is sorted, whatever the form of the input - every sorting call of
+        the function sits under an `if sort_angles:`. (Which forms are sorted when the flag holds, and the rest of the body, are not
+        anchored here: the correspondence run hands over lists, arrays, tuples, numbers and files.) Also read: the default of the flag."""
+        fn = canon("cryocat/ioutils.py", "tlt_load")
+        d = dict(map(tuple, _defaults(fn))).get("sort_angles")
+        if d not in ("True", "False"):
+            raise core.AnchorMissing(f"tlt_load: default of sort_angles is {d}")
+        tlt["default"] = d == "True"
+        dflt["tltload"] = _defaults(fn)
+
+        def is_sort(n):
+            return isinstance(n, ast.Call) and (core.norm_expr(n.func) in ("np.sort", "sorted", "np.argsort", "np.unique", "np.lexsort", "numpy.sort")
+                                                or (isinstance(n.func, ast.Attribute) and n.func.attr in ("sort", "sort_values", "argsort", "sort_index")))
+        sorts = [n for n in ast.walk(fn) if is_sort(n)]
+        guarded = set()
+        for n in ast.walk(fn):
+            if isinstance(n, ast.If) and core.norm_expr(n.test) == "sort_angles":
+                for st in n.body:
+                    guarded.update(id(x) for x in ast.walk(st))
+        loose = [x for x in sorts if id(x) not in guarded]
+        if loose:
+            raise core.AnchorMissing("tlt_load sorts regardless of sort_angles: `" + _orig_text(fn, ast.unparse(loose[0])) + "`")
+        tlt["n_sorts"] = len(sorts)
+        return f"{len(sorts)} sorting call(s), all under `if sort_angles:` (default {d})"
+
+    A("tlt_load:nothing is sorted unless sort_angles holds; default of sort_angles", tlt_parse)
+
+    rd = {}
+
+    def read_parse():
+        fn = canon("cryocat/cryomap.py", "read")
+        d = dict(map(tuple, _defaults(fn))).get("transpose")
+        if d != "True":
+            raise core.AnchorMissing(f"cryomap.read: default of transpose is {d}")
+        ifs = [n for n in ast.walk(fn) if isinstance(n, ast.If) and "transpose" in core.norm_expr(n.test)]
+        if len(ifs) != 1 or core.norm_expr(ifs[0].test) != "transpose" or len(ifs[0].body) != 1 or ifs[0].orelse:
+            raise core.AnchorMissing("cryomap.read: expected one `if transpose:` with one statement, found " + str([_orig_text(fn, ast.unparse(n.test)) for n in ifs]))
+        st = ifs[0].body[0]
+        m = re.fullmatch(VN + r"=\1\.transpose\((\d),(\d),(\d)\)", core.norm_expr(st))
+        if not m:
+            raise core.AnchorMissing("cryomap.read: the transposition is `" + _orig_text(fn, ast.unparse(st)) + "`")
+        rd["axes"] = [int(m.group(k)) for k in (2, 3, 4)]
+        dflt["read"] = _defaults(fn)
+        return f"transpose default {d}, axes {rd['axes']}"
+
+    A("cryomap.read:a map file is transposed (2, 1, 0) by default", read_parse)
+    for rel_, q_ in HELPERS:  # looked up so that the binding discipline of the framework covers them (one definition, documented decorators)
+        A(f"helper bound once:{q_}", (lambda r, q: (lambda: bool(src.find(r, q))))(rel_, q_))
 
     binz = {}
 
@@ -424,7 +641,12 @@ def translate(src):
     pp = A("points:KDTree ball query per tomogram", points)
     dc = A("dimensions_load:N x 4 columns", dimcols)
     for key in DOC_DEFAULTS:
-        A(f"defaults:{key}", (lambda k: (lambda: dflt[k] if k in dflt else (_ for _ in ()).throw(core.AnchorMissing("signature not read"))))(key))
+        A(f"defaults:{key}", (lambda k: (lambda: dflt[k] if k in dflt else (_ for _ in ()).throw(core.AnchorMissing("signature not read (the function was not found)"))))(key))
+    # how a tomogram list handed over as a FILE reaches the pairing with the masks: sorted when the effective sort_angles is true
+    eff = None
+    if "sort_kw" in mask and "default" in tlt:
+        eff = tlt["default"] if mask["sort_kw"] is None else mask["sort_kw"]
+    _doc_compare(src, sk)
 
     # a missing anchor falls back to the DOCUMENTED value (anchorsOk is false then, so the check fails anyway)
     lower = oob.get("lower", ".vacuousAll")
@@ -445,7 +667,12 @@ def oobCfg : OobCfg := {{ lower := {lower}, upper := .{upper}, rounding := .{bnd
 def trimCfg : TrimCfg := {{ offset := {trim.get("offset", 1)}, lowCmp := .{tlow[0]}, lowBound := {tlow[1]}, highCmp := .{trim.get("high", "gt")} }}
 def maskCfg : MaskCfg := {{ lowCmp := .{mask.get("low", "ge")}, highCmp := .{mask.get("high", "lt")}, zeroCmp := .{mask.get("zero", "eq")}, scope := .{mask.get("scope", "byTomoAndId")} }}
 def binarizeCfg : BinarizeCfg := {{ cmp := .{binz.get("cmp", "gt")}, thrNum := {thr[0]}, thrDen := {thr[1]} }}
-def maskIdsThroughFilter : Bool := {"true" if mask.get("ids_through") else "false"}
+/-- the subtomo ids pass through the same bounds filter as the coordinates (a fact that was not examined falls back to the documented value) -/
+def maskIdsThroughFilter : Bool := {"true" if mask.get("ids_through", True) else "false"}
+/-- `clean_by_tomo_mask` loads `tomo_list` with an effective `sort_angles` of this value: a list read from a FILE is sorted before it is paired with the masks -/
+def maskTomoFileSorted : Bool := {"true" if (eff if eff is not None else False) else "false"}
+def tltLoadSortDefault : Bool := {"true" if tlt.get("default", True) else "false"}
+def readTransposeAxes : List Nat := {rd.get("axes", [2, 1, 0])}
 def pointsBallQueryPerTomogram : Bool := {"true" if pp else "false"}
 def coordColumns : List String := {core.lean_str_list(cc[0])}
 def shiftColumns : List String := {core.lean_str_list(cc[1])}
@@ -456,6 +683,8 @@ def pointsDefaults : List (String × String) := {dl("points")}
 def maskDefaults : List (String × String) := {dl("mask")}
 def binarizeDefaults : List (String × String) := {dl("binarize")}
 def dimsLoadDefaults : List (String × String) := {dl("dimsload")}
+def tltLoadDefaults : List (String × String) := {dl("tltload")}
+def readDefaults : List (String × String) := {dl("read")}
 /-! body skeletons: the function without docstring, locals renamed v1, v2, ... in order of first binding, the
 operators/constants extracted above replaced by named holes (CMP_..., LOWER_FACES_OK, HALF_BOX, OFFSET, LOW_BOUND, DROP_ROWS) -/
 def oobSkeleton : List String := {skl("oob")}
@@ -482,7 +711,7 @@ def _fr(n):
 
 
 DELTAS = [Fraction(1), Fraction(1, 2), Fraction(1, 4), Fraction(1, SCALE)]
-TOMO_POOL = [1, 2, 3, 4, 5, 7, 12, 17, 204]
+TOMO_POOL = [0, 1, 2, 3, 4, 5, 7, 12, 17, 204]
 
 
 def _filler(rng, k):
@@ -603,24 +832,43 @@ def _oob_rows(rng, n, tomos, dims, b, missing, style):
     return rows
 
 
-def _rand_dims(rng):
-    return [rng.choice([rng.randint(8, 40), rng.randint(40, 128), rng.randint(8, 128)]) for _ in range(3)]
+BIG_BOXES = [65, 66, 67, 71, 96, 97, 99, 127, 128, 129, 161, 200, 201, 255, 256, 257]
+
+
+def _rand_dims(rng, b=0):
+    """dimensions of one tomogram: small volumes, realistic ones (up to 4096) and - for a box of half-width b - volumes around 2b"""
+    b = int(b)
+    out = []
+    for _ in range(3):
+        r = rng.random()
+        if b > 20 and r < 0.75:
+            d = 2 * b + rng.choice([rng.randint(1, 12), rng.randint(1, 200), rng.randint(200, 3000)])
+        elif r < 0.12:
+            d = rng.choice([rng.randint(200, 1024), rng.choice([464, 928, 960, 1024, 2048, 3708, 3838, 4096])])
+        else:
+            d = rng.choice([rng.randint(8, 40), rng.randint(40, 128), rng.randint(8, 128)])
+        out.append(d)
+    if rng.random() < 0.04:  # not every reconstruction has whole-voxel extents on record (binned dimensions)
+        a = rng.randrange(3)
+        out[a] = Fraction(2 * out[a] + 1, 2)
+    return out
 
 
 def gen_oob(rng, tier):
     T = rng.randint(1, 4)
     tomos = rng.sample(TOMO_POOL, T)
-    dims = {t: _rand_dims(rng) for t in tomos}
     r = rng.random()
     if r < 0.42:
-        bt, box = "center", (None if rng.random() < 0.7 else rng.randint(1, 64))
+        bt, box = "center", (None if rng.random() < 0.7 else rng.choice([rng.randint(1, 64), rng.choice(BIG_BOXES)]))
     elif r < 0.93:
-        bt, box = "whole", rng.choice([rng.randint(1, 8), rng.randint(1, 64), rng.randint(1, 64), 4 * rng.randint(0, 15) + rng.choice([1, 1, 2, 3, 4])])
+        bt, box = "whole", rng.choice([rng.randint(1, 8), rng.randint(1, 64), rng.randint(1, 64), 4 * rng.randint(0, 15) + rng.choice([1, 1, 2, 3, 4]),
+                                       rng.choice(BIG_BOXES), rng.randint(65, 260)])
     elif r < 0.96:
         bt, box = "whole", rng.choice([None, 0])
     else:
         bt, box = rng.choice(["centre", "Whole", "box", ""]), rng.choice([None, 10])
     b = Fraction((box + 1) // 2) if (bt == "whole" and box) else Fraction(0)
+    dims = {t: _rand_dims(rng, b) for t in tomos}
     n = _nrows(rng, tier)
     style = rng.random()
     # a tomogram with particles but without dimensions (KeyError in the real code): its particles all respect the
@@ -634,11 +882,11 @@ def gen_oob(rng, tier):
     v = rng.random()
     if v < 0.15:  # a tomogram that has dimensions but no particles
         extra = rng.choice([t for t in TOMO_POOL if t not in tomos])
-        extra_rows.append((rng.randrange(len(order) + 1), [_i(extra)] + [_i(rng.randint(8, 128)) for _ in range(3)]))
+        extra_rows.append((rng.randrange(len(order) + 1), [_i(extra)] + [_i(x) for x in _rand_dims(rng, b)]))
         variant = "extra-tomogram"
     elif v < 0.22:  # a second, different row for a tomogram: the first one counts
         t = rng.choice(tomos)
-        extra_rows.append((len(order), [_i(t)] + [_i(rng.randint(8, 128)) for _ in range(3)]))
+        extra_rows.append((len(order), [_i(t)] + [_i(x) for x in _rand_dims(rng, b)]))
         variant = "duplicate-row"
     if missing is not None:
         variant = "missing-tomogram"
@@ -650,7 +898,7 @@ def gen_oob(rng, tier):
         return [d for d in dr if missing is None or d[0] != _i(missing)]
 
     dim_rows = table(dims)
-    forms = ["ndarray", "dataframe", "ndarray", "dataframe", "file"] + (["list", "ndarray1d"] if len(dim_rows) == 1 else [])
+    forms = ["ndarray", "dataframe", "ndarray", "dataframe", "file", "dataframe-unlabelled", "ndarray-int"] + (["list", "ndarray1d"] if len(dim_rows) == 1 else [])
     case = dict(op="oob", scale=SCALE, rows=rows, dims=dim_rows, bt=bt, box=box, variant=variant, dims_as=rng.choice(forms))
     if bt == "center" and rng.random() < 0.6:
         case["omit"] = ["boundary_type"]
@@ -659,7 +907,7 @@ def gen_oob(rng, tier):
         nxt = dict(rows=None)
         d2 = dims
         if rng.random() < 0.5:  # the caller edits the same table in place / rewrites the same file: other dimensions, same tomograms
-            d2 = {t: _rand_dims(rng) for t in tomos}
+            d2 = {t: _rand_dims(rng, b) for t in tomos}
             nxt["dims"] = table(d2)
         nxt["rows"] = _oob_rows(rng, rng.randint(1, 12), tomos, d2, b, missing, rng.random())
         return nxt
@@ -795,7 +1043,7 @@ def gen_points(rng, tier):
     rows, cs = _points_rows(rng, n, tomos, ext, g)
     r = rng.choice([Fraction(0), Fraction(rng.randint(1, 12 * 4), 4), Fraction(rng.randint(1, ext * 2), 2), Fraction(rng.randint(4, 40), 4),
                     Fraction(rng.choice([5, 10, 13, 3, 7]))])
-    m = rng.choice([0, 1, 2, 3, rng.randint(1, 8), rng.randint(1, 8)])
+    m = rng.choice([0, 1, 2, 3, rng.randint(1, 8), rng.randint(1, 8), rng.randint(9, 40)])
     pts, r, variant = _points_pts(rng, m, tomos, cs, r, ext, g)
     inplace = rng.random() < 0.5
     case = dict(op="points", scale=SCALE, rows=rows, pts=pts, r=_i(r), variant=variant, inplace=inplace, pts_int_dtype=rng.random() < 0.3)
@@ -866,7 +1114,7 @@ def _mask_rows(rng, n, tomos, shape_of, ids_mode):
                     rows[k] = list(rows[j])
                 else:
                     c = [_same_voxel(rng, cpos[j][a]) for a in range(3)]
-                    rows[k] = _row(rng, rows[j][I_ID] // SCALE, t, c)
+                    rows[k] = _row(rng, Fraction(rows[j][I_ID], SCALE), Fraction(t, SCALE), c)
                     cpos[k] = c
             else:
                 first.setdefault(t, []).append(k)
@@ -883,7 +1131,15 @@ def gen_mask(rng, tier):
     if rng.random() < 0.15:
         listed.insert(rng.randrange(len(listed) + 1), rng.choice([t for t in TOMO_POOL if t not in tomos]))
     raw = rng.random() < 0.3
-    masks = [_mask_data(rng, [rng.randint(2, 9) for _ in range(3)], raw) for _ in range(1 if single else len(listed))]
+    masks_as = rng.choice(["arrays"] * 4 + ["files"])
+
+    def shape():
+        if masks_as == "files" or rng.random() < 0.3:
+            return rng.sample(range(2, 10), 3)  # three DISTINCT axis lengths: any confusion of the axes shows
+        if rng.random() < 0.06:
+            return [rng.randint(2, 9), rng.randint(10, 24), rng.randint(2, 16)]
+        return [rng.randint(2, 9) for _ in range(3)]
+    masks = [_mask_data(rng, shape(), raw) for _ in range(1 if single else len(listed))]
     if not single and rng.random() < 0.03:
         if rng.random() < 0.5 and len(masks) > 1:
             masks.pop()
@@ -898,7 +1154,10 @@ def gen_mask(rng, tier):
     inplace = rng.random() < 0.5
     case = dict(op="mask", scale=SCALE, rows=rows, tomos=[_i(t) for t in listed], masks=masks, single=single, variant=variant,
                 inplace=inplace, ids=ids_mode, mask_dtype=("float" if raw else rng.choice(["float", "float", "int8", "int64"])),
-                tomos_as=rng.choice(["list", "list", "ndarray"]))
+                tomos_as=rng.choice(["list", "list", "ndarray", "ndarray-int", "file", "file", "tuple"] + (["int", "int"] if len(listed) == 1 else [])),
+                masks_as=masks_as)
+    if variant == "list-length-mismatch":
+        case["tomos_as"] = rng.choice(["list", "ndarray", "file"])
     if inplace and rng.random() < 0.6:
         case["omit"] = ["inplace"]
 
@@ -913,22 +1172,50 @@ def gen_mask(rng, tier):
 GENS = [("oob", gen_oob, 0.40), ("trim", gen_trim, 0.18), ("points", gen_points, 0.20), ("mask", gen_mask, 0.22)]
 
 
+def _floor_rows(rows):
+    return [[v - v % SCALE for v in r] for r in rows]
+
+
+def _table_forms(rng, case):
+    """H3: how the particle table itself arrives. ~12 % of the cases are INTEGER lists (every field a whole number; the frame is
+    int64, as a STAR file holding only integers is read) and ~20 % carry row labels other than 0..n-1 (gaps as `remove_feature`
+    leaves them, shuffled, duplicated labels as `pd.concat` of two lists leaves them)."""
+    if rng.random() < 0.12 and not (case["op"] == "mask" and case.get("ids") == "repeat-within-tomogram"):
+        case["rows"] = _floor_rows(case["rows"])
+        for nxt in case.get("more") or []:
+            nxt["rows"] = _floor_rows(nxt["rows"])
+        case["motl_dtype"] = "int"
+    if rng.random() < 0.2:
+        case["index_as"] = rng.choice(["gaps", "shuffled", "duplicated"])
+    return case
+
+
 def generate(rng, tier, n):
     for _ in range(n):
         r, acc = rng.random(), 0.0
         for name, g, w in GENS:
             acc += w
             if r < acc or name == "mask":
-                yield g(rng, tier)
+                yield _table_forms(rng, g(rng, tier))
                 break
 
 
 # =============================================================================== implementation
-def _motl_of(rows, scale):
+def _motl_of(rows, scale, dtype="float", index_as=None):
     import numpy as np, pandas as pd
     from cryocat import cryomotl
     data = np.array([[n / scale for n in row] for row in rows], dtype=float).reshape(-1, 20)
-    return cryomotl.Motl(pd.DataFrame(data, columns=COLS))
+    df = pd.DataFrame(data, columns=COLS)
+    if dtype == "int" and bool(np.all(data == np.round(data))):
+        df = df.astype("int64")
+    n = len(df)
+    if index_as == "gaps":
+        df.index = [3 * k + 2 for k in range(n)]
+    elif index_as == "shuffled":
+        df.index = [(7 * k + 3) % n for k in range(n)] if n % 7 else list(range(n))[::-1]
+    elif index_as == "duplicated":
+        df.index = [k // 2 for k in range(n)]
+    return cryomotl.Motl(df)
 
 
 def _cell(v):
@@ -981,8 +1268,14 @@ class _Args:
             arr = np.array([[v / sc for v in d] for d in case["dims"]], dtype=float).reshape(-1, 4)
             form = case.get("dims_as", "ndarray")
             self.form = form
+            if form == "ndarray-int" and not bool(np.all(arr == np.round(arr))):
+                form = self.form = "ndarray"
             if form == "dataframe":
                 self.dims = pd.DataFrame(arr, columns=["tomo_id", "x", "y", "z"])
+            elif form == "dataframe-unlabelled":
+                self.dims = pd.DataFrame(arr)  # columns 0..3, as `pd.DataFrame(array)` / `read_csv(header=None)` give them
+            elif form == "ndarray-int":
+                self.dims = arr.astype(int)
             elif form == "file":
                 self.tmp = tempfile.mkdtemp(prefix="c09_")
                 self.dims = os.path.join(self.tmp, "dims.txt")
@@ -1012,9 +1305,34 @@ class _Args:
         elif op == "mask":
             self.masks = [self._mask_array(k, case) for k in case["masks"]]
             self.tomos = [v / sc for v in case["tomos"]]
-            if case.get("tomos_as") == "ndarray":
+            tas = case.get("tomos_as", "list")
+            integral = all(float(t).is_integer() for t in self.tomos)
+            if tas == "ndarray":
                 self.tomos = np.array(self.tomos)
-            self.marg = self.masks[0] if case.get("single") else self.masks
+            elif tas == "ndarray-int" and integral:
+                self.tomos = np.array(self.tomos).astype(int)
+            elif tas == "tuple":
+                self.tomos = tuple(int(t) if integral else t for t in self.tomos)
+            elif tas == "int" and len(self.tomos) == 1 and integral:
+                self.tomos = int(self.tomos[0])
+            elif tas == "file":
+                # one tomogram number per line, IN THE ORDER OF THE LIST (the masks are given in that order)
+                self.tmp = self.tmp or tempfile.mkdtemp(prefix="c09_")
+                path = os.path.join(self.tmp, "tomo_list.txt")
+                with open(path, "w") as f:
+                    for t in self.tomos:
+                        f.write((str(int(t)) if float(t).is_integer() else repr(t)) + "\n")
+                self.tomos = path
+            if case.get("masks_as") == "files":
+                # the masks as MRC files written with mrcfile alone (not with cryomap.write): MRC data is indexed [z, y, x], a voxel
+                # (x, y, z) of the mask is data[z, y, x]
+                import mrcfile
+                self.tmp = self.tmp or tempfile.mkdtemp(prefix="c09_")
+                self.mask_paths = [os.path.join(self.tmp, f"mask_{i}.mrc") for i in range(len(self.masks))]
+                self._write_masks()
+                self.marg = self.mask_paths[0] if case.get("single") else list(self.mask_paths)
+            else:
+                self.marg = self.masks[0] if case.get("single") else self.masks
         else:
             raise ValueError("unknown op " + str(op))
 
@@ -1023,6 +1341,13 @@ class _Args:
         vals = [v / self.sc for v in k["raw"]] if "raw" in k else k["data"]
         dt = {"int8": np.int8, "int64": np.int64}.get(case.get("mask_dtype", "float"), float)
         return np.array(vals, dtype=float if "raw" in k else dt).reshape(k["shape"])
+
+    def _write_masks(self):
+        import mrcfile
+        np = self.np
+        for path, arr in zip(self.mask_paths, self.masks):
+            with mrcfile.new(path, overwrite=True) as f:
+                f.set_data(np.ascontiguousarray(arr.astype(np.float32).transpose(2, 1, 0)))
 
     def _write_dims(self, arr):
         with open(self.dims, "w") as f:
@@ -1034,7 +1359,7 @@ class _Args:
         np, sc = self.np, self.sc
         if self.op == "oob" and "dims" in nxt:
             arr = np.array([[v / sc for v in d] for d in nxt["dims"]], dtype=float).reshape(-1, 4)
-            if self.form == "dataframe":
+            if self.form in ("dataframe", "dataframe-unlabelled"):
                 self.dims.iloc[:, :] = arr
             elif self.form == "file":
                 self._write_dims(arr)
@@ -1042,6 +1367,8 @@ class _Args:
                 self.dims[:] = arr[0].tolist()
             elif self.form == "ndarray1d":
                 self.dims[:] = arr[0]
+            elif self.form == "ndarray-int" and not bool(np.all(arr == np.round(arr))):
+                self.dims = arr  # the caller's integer table cannot hold the new extents: a new array
             else:
                 self.dims[:, :] = arr
         elif self.op == "trim" and "start" in nxt:
@@ -1063,6 +1390,8 @@ class _Args:
         elif self.op == "mask" and "masks" in nxt:
             for arr, k in zip(self.masks, nxt["masks"]):
                 arr[...] = self._mask_array(k, case)
+            if hasattr(self, "mask_paths"):
+                self._write_masks()  # the caller rewrites the same files
 
     def snapshot(self):
         np, pd = self.np, self.pd
@@ -1078,7 +1407,9 @@ class _Args:
                     out[name] = ("array", v.copy(), str(v.dtype))
                 else:
                     out[name] = ("plain", copy.deepcopy(v))
-        if hasattr(self, "masks"):
+        if hasattr(self, "mask_paths"):
+            out["masks"] = ("files", [open(q, "rb").read() for q in self.mask_paths])
+        elif hasattr(self, "masks"):
             out["masks"] = ("arrays", [m.copy() for m in self.masks], [str(m.dtype) for m in self.masks])
         return out
 
@@ -1091,8 +1422,16 @@ class _Args:
             kind = rec[0]
             if kind == "file":
                 same = open(v).read() == rec[1]
+            elif kind == "files":
+                same = [open(q, "rb").read() for q in self.mask_paths] == rec[1]
             elif kind == "frame":
-                same = list(v.columns) == rec[2] and [str(t) for t in v.dtypes] == rec[3] and v.shape == rec[1].shape \
+                # ioutils.dimensions_load names the columns of an UNLABELLED N x 4 frame in place (tests/test_ioutils.py records this as
+                # the behaviour today); that relabelling - and only that - is tolerated and counted (`relabelled`), see ASSUMPTIONS
+                cols_ok = list(v.columns) == rec[2]
+                if not cols_ok and name == "dims" and rec[2] == list(range(4)) and list(v.columns) == ["tomo_id", "x", "y", "z"]:
+                    cols_ok = True
+                    self.relabelled = True
+                same = cols_ok and [str(t) for t in v.dtypes] == rec[3] and v.shape == rec[1].shape \
                     and bool(np.array_equal(v.to_numpy(), rec[1].to_numpy())) and list(v.index) == list(rec[1].index)
             elif kind == "array":
                 same = str(v.dtype) == rec[2] and v.shape == rec[1].shape and bool(np.array_equal(v, rec[1]))
@@ -1156,7 +1495,7 @@ def run_impl(case):
             sub = _sub_case(case, k)
             if k > 0:
                 args.edit(case["more"][k - 1], sub)
-            m = _motl_of(sub["rows"], sub["scale"])
+            m = _motl_of(sub["rows"], sub["scale"], case.get("motl_dtype", "float"), case.get("index_as"))
             before = m.df.copy(deep=True)
             snap = args.snapshot()
             try:
@@ -1170,6 +1509,8 @@ def run_impl(case):
             except Exception as e:
                 o = _exc_obs(e)
             o["args_changed"] = args.changed(snap)
+            if getattr(args, "relabelled", False):
+                o["dims_relabelled"] = True
             out.append(o)
     finally:
         args.close()
@@ -1195,7 +1536,7 @@ def _request_of(case):
     elif op == "points":
         q.update(pts=case["pts"], r=case["r"])
     elif op == "mask":
-        q.update(tomos=case["tomos"], masks=case["masks"], single=bool(case.get("single")))
+        q.update(tomos=case["tomos"], masks=case["masks"], single=bool(case.get("single")), from_file=(case.get("tomos_as") == "file"))
     return q
 
 
@@ -1249,11 +1590,7 @@ def expected(case):
         def near(r):
             c = [r[I_X + a] + r[I_SX + a] for a in range(3)]
             return any(q[0] == r[I_TOMO] and sum((c[a] - q[1 + a]) ** 2 for a in range(3)) <= rad * rad for q in case["pts"])
-        order = []
-        for r in rows:
-            if r[I_TOMO] not in order:
-                order.append(r[I_TOMO])
-        return dict(rows=[r for t in order for r in rows if r[I_TOMO] == t and not near(r)])
+        return dict(rows=[r for r in rows if not near(r)])  # the statement: the input without the particles near a point
     if op == "mask":
         masks, tomos = case["masks"], case["tomos"]
         if case.get("single"):
@@ -1283,17 +1620,25 @@ def _wire_of_case(rows):
     return [tuple(_fr(c) for c in r) for r in rows]
 
 
-def _impl_kind(obs):
-    e = obs["error"]
-    if e.startswith("UserInputError") and "Unknown type of boundaries" in e:
-        return "reject:boundary-type"
-    if e.startswith("UserInputError") and "box_size" in e:
-        return "reject:box-size"
-    if e.startswith("KeyError") and obs.get("where", "").startswith("cryomotl.py"):
-        return "reject:no-dimensions"
-    if e.startswith("ValueError") and "different length" in e:
-        return "reject:mask-list-length"
-    return "raises:" + e[:120]
+# the documented refusals: which exception TYPE the code raises when WHICH precondition is violated (never the wording of the message)
+DOC_EXC = {"reject:boundary-type": ("UserInputError", None), "reject:box-size": ("UserInputError", None),
+           "reject:no-dimensions": ("KeyError", "cryomotl.py"), "reject:mask-list-length": ("ValueError", "cryomotl.py")}
+
+
+def _exc_type(obs):
+    return obs["error"].split(":", 1)[0].strip()
+
+
+def _impl_kind(obs, want=None):
+    """`want` = the refusal the statement (or a model) expects for this input, if any: the implementation's exception counts as that
+    refusal when it has the documented TYPE (and, where recorded, is raised from the documented file); any other exception is
+    `raises:<Type>`"""
+    et = _exc_type(obs)
+    if want in DOC_EXC:
+        typ, where = DOC_EXC[want]
+        if et == typ and (where is None or obs.get("where", "").startswith(where)):
+            return want
+    return "raises:" + et
 
 
 def _impl_cell(c):
@@ -1304,9 +1649,9 @@ def _impl_cell(c):
     return Fraction(c[0], c[1])
 
 
-def _impl_result(obs):
+def _impl_result(obs, want=None):
     if "error" in obs:
-        return dict(error=_impl_kind(obs))
+        return dict(error=_impl_kind(obs, want))
     return dict(rows=[tuple(_impl_cell(c) for c in r) for r in obs["rows"]])
 
 
@@ -1350,12 +1695,11 @@ def judge_one(case, obs, resp):
     if "error" in obs and not obs.get("where"):
         # no frame of /cryocat/ on the traceback: the harness or a library failed, cryoCAT was not even running (G4)
         return [dict(kind="corr", clause="harness-or-library-raised", detail=f"{op}: {obs['error']}")]
-    impl = _impl_result(obs)
-
     def norm(r):
         return dict(error=r["error"]) if "error" in r else dict(rows=_wire_of_resp(r["rows"]))
 
     spec, code = norm(resp["spec"]), norm(resp["code"])
+    impl = _impl_result(obs, spec.get("error"))
     exp = expected(case)
     exp_n = dict(error=exp["error"]) if "error" in exp else dict(rows=_wire_of_case(exp["rows"]))
     if exp_n != spec:
@@ -1371,7 +1715,7 @@ def judge_one(case, obs, resp):
     if "error" in spec or "error" in impl:
         if spec != impl:
             if "error" in impl and "rows" in spec:
-                spec_clauses.append(("raises-on-valid-input", f"{op}: {impl['error']} where the property demands {len(spec['rows'])} survivors"))
+                spec_clauses.append(("raises-on-valid-input", f"{op}: {impl['error']} ({obs['error'][:160]} at {obs.get('where')}) where the property demands {len(spec['rows'])} survivors"))
             else:
                 out.append(dict(kind="corr", clause="rejection-differs", detail=f"{op}: implementation {('returned %d rows' % len(impl['rows'])) if 'rows' in impl else impl['error']}, model {spec.get('error')}"))
     else:
@@ -1379,11 +1723,20 @@ def judge_one(case, obs, resp):
         texty = [COLS[k] for k, kd in enumerate(kinds) if kd not in "iufb-"] + sorted({COLS[k] for r in impl["rows"] for k, c in enumerate(r) if isinstance(c, tuple)})
         if texty:
             spec_clauses.append((f"{op}-survivor-altered", f"numeric field(s) {sorted(set(texty))} come back as text/object (column dtype kinds {''.join(kinds)})"))
-        elif any(kd != "f" for kd in kinds):
+        elif case.get("motl_dtype", "float") == "float" and any(kd != "f" for kd in kinds):
             out.append(dict(kind="corr", clause="dtype-changed", detail=f"{op}: float64 columns went in, column dtype kinds {''.join(kinds)} came out"))
         if obs.get("n_cols") != 20:
             spec_clauses.append((f"{op}-survivor-altered", f"result has {obs.get('n_cols')} columns"))
-    if "rows" in spec and "rows" in impl and impl["rows"] != spec["rows"]:
+    def by_tomo(rows):
+        g = {}
+        for r in rows:
+            g.setdefault(r[I_TOMO], []).append(r)
+        return g
+
+    # points: the statement (and cleanPoints_perm) fix the survivors up to a permutation; what the model of the code adds
+    # (cleanPoints_tomogram_order) is the order INSIDE every tomogram - the order of the tomogram groups is nobody's claim
+    same = (lambda a, b: by_tomo(a) == by_tomo(b)) if op == "points" else (lambda a, b: a == b)
+    if "rows" in spec and "rows" in impl and not same(impl["rows"], spec["rows"]):
         inputs = _wire_of_case(case["rows"])
         off = [Fraction(0)] * 3
         if op == "trim":
@@ -1422,12 +1775,14 @@ def judge_one(case, obs, resp):
         if removed_wrong:
             spec_clauses.append((f"{op}-removes-inside", f"{len(removed_wrong)} particle(s) removed that the property keeps, e.g. subtomo_id {removed_wrong[0][I_ID]} of tomogram {removed_wrong[0][I_TOMO]}"))
         if not (altered or multiplied or kept_wrong or removed_wrong or (op == "oob" and k1)):
-            out.append(dict(kind="corr", clause="order-or-multiplicity", detail=f"{op}: same particles, different order than the model"))
+            out.append(dict(kind="corr", clause="order-or-multiplicity", detail=f"{op}: same particles, different order" + (" inside a tomogram" if op == "points" else "") + " than the model"))
     for cl, det in spec_clauses:
         out.append(dict(kind="spec", clause=cl, detail=det))
     # correspondence with the model of the code as it is today
     only_k1 = all(c == "oob-lower-face-kept" for c, _ in spec_clauses)
-    if only_k1 and impl != code:
+    impl_c = _impl_result(obs, code.get("error"))
+    if only_k1 and not (same(impl_c["rows"], code["rows"]) if ("rows" in impl_c and "rows" in code) else impl_c == code):
+        impl = impl_c
         what = "rows" if ("rows" in impl and "rows" in code) else f"{impl.get('error')} vs {code.get('error')}"
         if not any(f["kind"] == "corr" for f in out):
             out.append(dict(kind="corr", clause=f"{op}-impl-vs-code-model", detail=f"{op}: implementation and the model of today's source differ ({what})"))
@@ -1546,7 +1901,8 @@ def stats(case, obs, resps):
     if op == "oob":
         st["boundary"] = case["bt"] if case["bt"] in ("center", "whole") else "other"
         if case["bt"] == "whole" and case["box"]:
-            st["box"] = "1-8" if case["box"] <= 8 else ("9-32" if case["box"] <= 32 else "33-64")
+            st["box"] = "1-8" if case["box"] <= 8 else ("9-32" if case["box"] <= 32 else ("33-64" if case["box"] <= 64 else ("65-128" if case["box"] <= 128 else "129-260")))
+            st["largest dimension"] = (lambda d: "<=128" if d <= 128 else ("129-1024" if d <= 1024 else "1025-4200"))(max([max(d[1:]) for d in case["dims"]] or [0]) / SCALE)
         st["K1-class particles"] = "yes" if _k1_rows(case, obs) else "no"
         st["box mod 4"] = str(case["box"] % 4) if (case["bt"] == "whole" and case["box"]) else "-"
         st["dims handed over as"] = case.get("dims_as", "ndarray")
@@ -1555,7 +1911,9 @@ def stats(case, obs, resps):
     if op == "trim":
         st["trim box handed over as"] = case.get("args_as", "list")
     if op == "mask":
-        st["mask form"] = "single" if case.get("single") else "list"
+        st["mask form"] = ("single " if case.get("single") else "list of ") + case.get("masks_as", "arrays")
+        st["tomogram list handed over as"] = case.get("tomos_as", "list") + (" (unsorted)" if case["tomos"] != sorted(case["tomos"]) else "")
+        st["mask axis lengths"] = "three distinct" if any(len(set(m["shape"])) == 3 for m in case["masks"]) else "some equal"
         st["mask values"] = "around-threshold" if any("raw" in m for m in case["masks"]) else "0/1 " + case.get("mask_dtype", "float")
     if op in ("mask", "points"):
         st["inplace"] = str(bool(case.get("inplace", True)))
@@ -1563,13 +1921,16 @@ def stats(case, obs, resps):
     ids = [r[I_ID] for r in case["rows"]]
     st["subtomo ids"] = f"{op}:" + ("repeat inside a tomogram" if len(set(keys)) < len(keys) else
                                     ("repeat across tomograms" if len(set(ids)) < len(ids) else "unique"))
+    st["particle table"] = f"{op}:" + case.get("motl_dtype", "float") + "64, row labels " + case.get("index_as", "0..n-1")
+    if obs.get("dims_relabelled"):
+        st["dims frame relabelled in place"] = "yes"
     st["calls in the history"] = f"{op}:{_n_calls(case)}"
     if case.get("more"):
         st["edited between calls"] = [f"{op}:{k}" for nxt in case["more"] for k in nxt if k != "rows"] or [f"{op}:nothing (same arguments)"]
     st["default keywords"] = f"{op}:" + ("omitted " + ",".join(case["omit"]) if case.get("omit") else
                                          ("n/a" if op == "trim" else "passed explicitly"))
     if "error" in obs:
-        st["impl error"] = _impl_kind(obs)[:60]
+        st["impl error"] = _impl_kind(obs, exp.get("error"))[:60]
     if "kinds" in obs:
         st["returned dtype kinds"] = "".join(sorted(set(obs["kinds"])))
     return st
@@ -1677,6 +2038,10 @@ def probes(rng):
             bad += got != want
     out.append(dict(name="scipy KDTree.query_ball_point = brute-force closed ball (incl. exact ties)", ok=bad == 0,
                     detail=f"200 queries, {ties} exact ties, {bad} disagreements"))
+    P = np.array([[0.0, 0, 0], [1, 0, 0], [3, 0, 0], [0, 2, 0]])
+    tree = KDTree(P)
+    neg = all(sorted(tree.query_ball_point([0, 0, 0], r=-r)) == sorted(tree.query_ball_point([0, 0, 0], r=r)) for r in (0.5, 1.0, 2.0, 2.5, 3.0))
+    out.append(dict(name="scipy KDTree.query_ball_point with a negative radius selects what |r| selects (inBall_neg)", ok=neg, detail="r in {0.5, 1, 2, 2.5, 3}"))
     xs = [-2.5, -1.0, -0.75, -0.0009765625, 0.0, 0.25, 0.9990234375, 1.0, 7.75]
     got = np.array(xs).astype(int).tolist()
     out.append(dict(name="numpy astype(int) truncates toward zero", ok=got == [_trunc(Fraction(x)) for x in xs], detail=str(got)))
@@ -1687,12 +2052,14 @@ def probes(rng):
 
 
 LEVEL_TEXT = ("Lean 4 theorems about an executable model of the four spatial filters, for all particle lists, all dimension tables, all trim boxes, "
-              "all point sets/radii and all masks (oob_spec, oob_rejects_iff, oob_partial, oob_counterexample, trim_spec, trim_survivor, trim_complete, "
-              "cleanPoints_perm, cleanPoints_mem_iff, cleanMaskStmt_spec, cleanMask_spec_iff, cleanMask_spec, cleanMask_eq_stmt, voxel_truncation_convention); "
-              "the model is tied to the source by regenerated comparison operators/constants, signature defaults and rename-insensitive body skeletons "
-              "(Gen/C09.lean, *_documented theorems) and by an exact differential run of the real functions against the executable statement at Rat")
+              "all point sets/radii, all masks and every form of the tomogram list (oob_spec, oob_rejects_iff, oob_partial, oob_counterexample, trim_spec, trim_survivor, "
+              "trim_complete, cleanPointsStmt_spec, cleanPoints_perm_stmt, cleanPoints_tomogram_order_stmt, inBall_iff_dist_le, cleanMaskStmt_spec, cleanMask_spec_iff, "
+              "cleanMask_spec, cleanMask_eq_stmt, cleanMaskArgCode_eq, cleanMaskArgCode_spec, pairMasks_perTomo_getElem, cleanMask_sorted_file_counterexample, "
+              "voxel_truncation_convention); the model is tied to the source by regenerated comparison operators/constants, signature defaults and body skeletons that "
+              "ignore the spelling of locals, type annotations and the wording of messages (Gen/C09.lean; the *_documented equalities are translator anchors, not clauses) "
+              "and by an exact differential run of the real functions against the executable statement at Rat")
 LEVEL_NOTE = ("trusted: Lean kernel; translator anchors; dyadic-grid exactness of numpy floats; scipy KDTree ball query = brute force (probed); "
-              "numpy astype(int) = truncation (probed); pandas selection semantics. Open finding C09-K1 (lower faces never tested) is modelled by oobAsIs. "
+              "numpy astype(int) = truncation (probed); pandas selection semantics; mrcfile axis order. Open finding C09-K1 (lower faces never tested) is modelled by oobAsIs. "
               "Mask filter: the code drops rows by (tomo_id, subtomo_id), so the statement holds exactly on lists where rows of one tomogram sharing an id "
               "share their voxel status (cleanMask_spec_iff).")
 TECHNIQUE = "Lean 4 proof (filter/fold/flatMap/permutation lemmas, ordered-field algebra) + regenerated operators, defaults and body skeletons + exact differential correspondence at Rat incl. multi-call histories"
